@@ -31,6 +31,23 @@ GOENV = dict(os.environ, GOFLAGS="-mod=mod", GOPROXY="off", GOSUMDB="off", GOTOO
 MAXPROCS = int(os.environ.get("VERIF_PROCS", "16"))
 
 
+LIVE = set()
+
+
+def _killall(signum, frame):
+    for pid in list(LIVE):
+        try:
+            os.killpg(pid, signal.SIGKILL)
+        except (ProcessLookupError, PermissionError):
+            pass
+    os._exit(2)
+
+
+signal.signal(signal.SIGTERM, _killall)
+signal.signal(signal.SIGINT, _killall)
+signal.signal(signal.SIGHUP, _killall)
+
+
 def log(*a):
     print(*a, flush=True)
 
@@ -131,6 +148,7 @@ def run_shard(sh, testbin, prop_id, tier, seed, binpath, scratch, replay=None):
     with open(sh.logf, "w") as lf:
         p = subprocess.Popen(args, cwd=tmp, env=env, stdout=lf, stderr=subprocess.STDOUT,
                              start_new_session=True)
+        LIVE.add(p.pid)
         try:
             sh.rc = p.wait(timeout=timeout + 90)
         except subprocess.TimeoutExpired:
@@ -146,6 +164,7 @@ def run_shard(sh, testbin, prop_id, tier, seed, binpath, scratch, replay=None):
         os.killpg(p.pid, signal.SIGKILL)
     except (ProcessLookupError, PermissionError):
         pass
+    LIVE.discard(p.pid)
     sh.wall = time.time() - start
     shutil.rmtree(tmp, ignore_errors=True)
     text = open(sh.logf, errors="replace").read()
